@@ -26,8 +26,8 @@ FUNCTIONS_ENCODED = [
     "pyanalyze.value.CallableValue.can_assign -> pyanalyze.signature.Signature.can_assign (source of upper bounds)", "pyanalyze.value.GenericValue.can_assign (list[T], dict[T, U])", "two type variables: dict[T, U], Callable[[T], U] (h15_two)",
 ]
 BOUNDS = {
-    "quick": {"signatures": "1-3 parameters from {T, list[T], Callable[[T], None], Callable[[], T]}, T plain / bound to an atom / constrained to two atoms, return T; all permutations",
-              "arguments": "atoms (distinct per parameter / all the same) or one Any; a 24th of the 3-parameter signatures", "relation": "every preorder on 3 atoms"},
+    "quick": {"signatures": "1-3 parameters from {T, list[T], Callable[[T], None], Callable[[], T]} (+ dict[T, U], Callable[[T], U] with two variables), T plain / bound to an atom / constrained to two atoms, return T; all orders for <= 2 parameters, reversal + both rotations for 3",
+              "arguments": "atoms (distinct per parameter / all the same) or one Any; a 60th of the 3-parameter signatures plus the pinned Any + callback family", "relation": "every preorder on 3 atoms"},
     "thorough": {"signatures": "same, all argument assignments", "arguments": "same", "relation": "same"},
 }
 OUTSIDE = ["bounds produced by protocols / generic user classes (need the visitor and attribute lookup)", "ParamSpec solving"]
@@ -47,6 +47,15 @@ def prepare(template, data):
         G.case = saved
 
 
+def _perms(n: int, which: str):
+    """non-identity orders of the parameter list: all of them, or (quick tier, 3 parameters) the reversal
+    and the two rotations - every pair of parameters is swapped in at least one of them"""
+    allp = [p for p in itertools.permutations(range(n)) if list(p) != list(range(n))]
+    if which == "all" or n < 3:
+        return allp
+    return [(2, 1, 0), (1, 2, 0), (2, 0, 1)]
+
+
 def h15(b0: bool, b1: bool, b2: bool, b3: bool, b4: bool, b5: bool) -> bool:
     """
     post: _
@@ -61,9 +70,7 @@ def h15(b0: bool, b1: bool, b2: bool, b3: bool, b4: bool, b5: bool) -> bool:
     tvspec = tuple(data["tv"])
     diagnosed, ret, errors = CC.run_call(params, ("T",), tvspec, args, atoms)
     # 1. the verdict does not depend on the order of the arguments that contribute bounds
-    for perm in itertools.permutations(range(len(params))):
-        if list(perm) == list(range(len(params))):
-            continue
+    for perm in _perms(len(params), data.get("perms", "all")):
         d2, r2, e2 = CC.run_call(params, ("T",), tvspec, args, atoms, order=perm)
         if d2 != diagnosed:
             return fin(False)
@@ -122,9 +129,7 @@ def h15_two(b0: bool, b1: bool, b2: bool, b3: bool, b4: bool, b5: bool) -> bool:
     params = [(f"p{i}", tuple(a), None) for i, a in enumerate(data["params"])]
     args = [tuple(a) if isinstance(a, list) else a for a in data["args"]]
     diagnosed, ret, errors = CC.run_call(params, ("dictTU",), ("plain",), args, atoms)
-    for perm in itertools.permutations(range(len(params))):
-        if list(perm) == list(range(len(params))):
-            continue
+    for perm in _perms(len(params), data.get("perms", "all")):
         d2, r2, e2 = CC.run_call(params, ("dictTU",), ("plain",), args, atoms, order=perm)
         if d2 != diagnosed:
             return fin(False)
@@ -191,13 +196,16 @@ def cases(tier: str, seed: int) -> List[Case]:
                         continue
                     seen.add(key)
                     idx += 1
-                    keep = "any" in args and any(k[0] == "cbT" for k in kinds) and tv[0] == "plain"
-                    if quick and n == 3 and (idx + seed) % 24 != 0 and not keep:
+                    keep = ("any" in args and tv[0] == "plain" and sum(1 for k in kinds if k[0] == "cbT") == 1
+                            and sum(1 for k in kinds if k[0] == "T") == 2)
+                    if quick and n == 3 and (idx + seed) % 60 != 0 and not keep:
+                        continue
+                    if quick and n == 2 and (idx + seed) % 2 != 0 and "any" not in args:
                         continue
                     if (not quick) and n == 3 and (idx + seed) % 3 != 0:
                         continue
                     params = [list(k) for k in kinds]
-                    out.append(Case("h15", _lab(kinds, tv, args), {"params": params, "tv": list(tv), "args": list(args)},
+                    out.append(Case("h15", _lab(kinds, tv, args), {"params": params, "tv": list(tv), "args": list(args), "perms": "some" if quick else "all"},
                                     timeout=90 if quick else 300, twin=(idx % 4 == 0), vacuous_ok=True))
     # two type variables
     kinds2 = [("T",), ("U",), ("cbTU",), ("dictTU",)]
@@ -216,9 +224,9 @@ def cases(tier: str, seed: int) -> List[Case]:
                 argsets.append(a)
             for args in argsets:
                 idx += 1
-                if n == 3 and (idx + seed) % (20 if quick else 2) != 0:
+                if n == 3 and (quick or (idx + seed) % 2 != 0):
                     continue
                 out.append(Case("h15_two", "two:" + ",".join(k[0] for k in kinds) + "|" + ";".join(str(a) for a in args),
-                                {"params": [list(k) for k in kinds], "args": args}, timeout=90 if quick else 300,
+                                {"params": [list(k) for k in kinds], "args": args, "perms": "some" if quick else "all"}, timeout=90 if quick else 300,
                                 twin=(idx % 4 == 0), vacuous_ok=True))
     return out
